@@ -12,7 +12,10 @@ CONSTANTS
   MaxQueries = 3
 SPECIFICATION Spec
 CHECK_DEADLOCK FALSE
+PROPERTIES
+  RefinesMirrorInd
 INVARIANTS
+  AbsInv
   MirrorAlways
   NoDangling
   WarmEqualsColdRepaired
